@@ -398,6 +398,26 @@ def prefix_checks(ctx):
                 if codes(P, t.format("sc:")) != codes(A, t.format("")):
                     rec.violation("C13:single-prefixed-schema:prefixed-judged-differently", version=version, text=t.format("sc:"),
                                   alone=codes(A, t.format("")), prefixed=codes(P, t.format("sc:")))
+            # definitions under the prefix: expanding and shrinking keep every tag in the prefixed schema
+            from hed.models.definition_dict import DefinitionDict
+            from hed.models.hed_string import HedString
+            from props.c09 import add_prefix
+            plain_defs = ["(Definition/MyDef, (Red, Blue))", "(Definition/Val/#, (Label/#, Green))"]
+            for plain in ("Def/MyDef, Square", "(Def/Val/5, Onset)", "(Def/MyDef, (Def/Val/x, Circle))"):
+                da = DefinitionDict(plain_defs, A)
+                dp = DefinitionDict([add_prefix(d, "sc:") for d in plain_defs], P)
+                ha, hp = HedString(plain, A, da), HedString(add_prefix(plain, "sc:"), P, dp)
+                steps = []
+                for op in ("expand", "shrink", "expand"):
+                    getattr(ha, op + "_defs")()
+                    getattr(hp, op + "_defs")()
+                    steps.append(op)
+                    va = sorted(i["code"] for i in ha.validate(allow_placeholders=False))
+                    vp = sorted(i["code"] for i in hp.validate(allow_placeholders=False))
+                    if str(hp) != add_prefix(str(ha), "sc:") or va != vp:
+                        rec.violation("C13:single-prefixed-schema:definitions-expand-or-shrink-differently", version=version,
+                                      history=list(steps), alone=str(ha), prefixed=str(hp), codes_alone=va, codes_prefixed=vp)
+                        break
             for text in ("Red", "sc:Blue, Red", "(Label/abc, sc:Green)", "Event"):
                 if "TAG_NAMESPACE_PREFIX_INVALID" not in [c for c, _ in codes(P, text)]:
                     rec.violation("C13:single-prefixed-schema:unprefixed-tag-accepted", version=version, text=text,
@@ -447,6 +467,63 @@ def prefix_checks(ctx):
                 rec.violation("C13:partial-cache-folder:raises:" + type(e).__name__, versions=spec, error=repr(e)[:200])
             finally:
                 shutil.rmtree(folder, ignore_errors=True)
+    # two generated libraries (same partner) under one prefix whose tags differ: refused exactly when another kind of name
+    # clashes - here a unit class both define (with different units); fine under two prefixes or with different class names
+    LIB = """<?xml version="1.0" ?>
+<HED version="1.0.0" library="{lib}" withStandard="8.2.0" unmerged="True">
+   <prologue>Small generated library {lib}.</prologue>
+   <schema>
+      <node><name>{tag}</name>
+         <node><name>#</name>
+            <attribute><name>takesValue</name></attribute>
+            <attribute><name>valueClass</name><value>numericClass</value></attribute>
+            <attribute><name>unitClass</name><value>{uclass}</value></attribute>
+         </node>
+      </node>
+   </schema>
+   <unitClassDefinitions>
+      <unitClassDefinition><name>{uclass}</name>
+         <attribute><name>defaultUnits</name><value>{unit}</value></attribute>
+         <unit><name>{unit}</name><attribute><name>SIUnit</name></attribute></unit>
+      </unitClassDefinition>
+   </unitClassDefinitions>
+   <unitModifierDefinitions/>
+   <valueClassDefinitions/>
+   <schemaAttributeDefinitions/>
+   <propertyDefinitions/>
+</HED>
+"""
+    for kind, cls_a, cls_b, must_refuse in (("same-unit-class-name", "pressureUnits", "pressureUnits", True),
+                                            ("different-unit-class-names", "pressureUnits", "stressUnits", False)):
+        folder = tempfile.mkdtemp(dir="/dev/shm", prefix="verif-c13g-")
+        rec.n("evaluations")
+        rec.n("distinct_nontrivial")
+        try:
+            shutil.copy(os.path.join(core.SCHEMA_DATA, "HED8.2.0.xml"), folder)
+            with open(os.path.join(folder, "HED_alphalib_1.0.0.xml"), "w") as f:
+                f.write(LIB.format(lib="alphalib", tag="Alpha-sound", unit="pascal", uclass=cls_a))
+            with open(os.path.join(folder, "HED_betalib_1.0.0.xml"), "w") as f:
+                f.write(LIB.format(lib="betalib", tag="Beta-sound", unit="bar", uclass=cls_b))
+            for spec in ("alphalib_1.0.0,betalib_1.0.0", "lb:alphalib_1.0.0,betalib_1.0.0", ["alphalib_1.0.0", "betalib_1.0.0"]):
+                try:
+                    load_schema_version(spec, xml_folder=folder)
+                    refused = False
+                except HedFileError:
+                    refused = True
+                if refused != must_refuse:
+                    rec.violation("C13:generated-libraries:" + kind + (":accepted" if must_refuse else ":refused"), versions=repr(spec))
+            # under two prefixes both load, and each prefix keeps its own units
+            G = load_schema_version(["a:alphalib_1.0.0", "b:betalib_1.0.0"], xml_folder=folder)
+            for text, ok in (("a:Alpha-sound/3 pascal", True), ("b:Beta-sound/3 bar", True), ("a:Alpha-sound/3 bar", False),
+                             ("b:Beta-sound/3 pascal", False)):
+                errs = [c for c, sev in codes(G, text) if sev == ERR]
+                if (not errs) != ok:
+                    rec.violation("C13:generated-libraries:units-of-the-other-library", kind=kind, text=text, codes=errs)
+            rec.outcome("generated-libraries:" + kind)
+        except Exception as e:
+            rec.violation("C13:generated-libraries:raises:" + type(e).__name__, kind=kind, error=repr(e)[:300])
+        finally:
+            shutil.rmtree(folder, ignore_errors=True)
     # an unmerged partnered library is built on the (cached, possibly used) standard schema: same verdicts under a prefix
     for lib in ("testlib_2.0.0", "score_1.1.0"):
         rec.n("evaluations")
